@@ -90,6 +90,31 @@ pub fn call(name: &str, args: &[String]) -> Value {
                     }
                 }
             }
+            // a date-time written by a client in ANY offset denotes the same instant: texts built here by hand
+            // (yyyy-mm-ddThh:mm:ss[.mmm](Z|+hh:mm|-hh:mm)), not by the implementation
+            for ms in [0i64, 1, 500, 999] {
+                for off in offsets {
+                    let nanos = i128::from(base) * 1_000_000_000 + i128::from(ms) * 1_000_000;
+                    let t = time::OffsetDateTime::from_unix_timestamp_nanos(nanos).unwrap().to_offset(time::UtcOffset::from_whole_seconds(off).unwrap());
+                    let frac = if ms == 0 { String::new() } else { format!(".{ms:03}") };
+                    let zone = if off == 0 { "Z".to_string() } else { format!("{}{:02}:{:02}", if off < 0 { '-' } else { '+' }, off.abs() / 3600, (off.abs() % 3600) / 60) };
+                    let text = format!("{:04}-{:02}-{:02}T{:02}:{:02}:{:02}{}{}", t.year(), u8::from(t.month()), t.day(), t.hour(), t.minute(), t.second(), frac, zone);
+                    n += 1;
+                    match s3s::dto::Timestamp::parse(s3s::dto::TimestampFormat::DateTime, &text) {
+                        Ok(b) => {
+                            let got = time::OffsetDateTime::from(b).unix_timestamp_nanos();
+                            if got != nanos && bad.len() < 8 {
+                                bad.push(json!({"ms": ms, "off": off, "fmt": 0, "text": text, "got": got.to_string(), "want": nanos.to_string(), "why": "client text in an offset"}));
+                            }
+                        }
+                        Err(e) => {
+                            if bad.len() < 8 {
+                                bad.push(json!({"ms": ms, "off": off, "fmt": 0, "text": text, "why": format!("client text in an offset refused: {e:?}")}));
+                            }
+                        }
+                    }
+                }
+            }
             json!({"evaluations": n, "bad": bad})
         }
         "timestamp_parse" => {
